@@ -122,6 +122,10 @@ def run(ctx):
     shared.decision_table_rule(ctx, "C09.R4")
     c12.delete_rule(ctx, "C09.R5", title="with allow_incomplete the crop can be deleted iff clean_up is explicitly true (default deletes nothing)", floor=20, only_table_for_partial=True)
     shared.load_errors_propagate_rule(ctx, "C09.R6")
+    from . import sweep
+    sweep.nan_placeholder_rule(ctx, "C09.R7")
+    from . import c04
+    c04.persist_replay_rule(ctx, "C09.R8")
     prog = ctx.prog
     init = prog.need_func(CROP + ".Reaper.__init__")
     crop = prog.need_cls(CROP + ".Crop")
